@@ -159,9 +159,49 @@ def reuse_clause(tl, tags, rank):
     return n
 
 
+def check_unaligned(case):
+    """one warp whose length L is not a whole number of ticks (three decimals, no exact half tick), constant tempo.
+    How such a length is rounded is not stated, so the skipped stretch is only bounded: it lies between L and the
+    nearest whole number of ticks R. Every beat at least two ticks past the warp is reached
+    [min(L, R), max(L, R)] x (60 / BPM) seconds earlier than without the warp."""
+    from simfile.ssc import SSCSimfile
+    from simfile.timing import TimingData
+    from simfile.timing.engine import TimingEngine
+
+    k, length = case["warp"]
+    L = F(D(length))
+    R = F(round(L * 48), 48)
+    bpm = F(D(case["bpm"]))
+    spb = 60 / bpm
+    stop = F(D(case["stop"])) if case.get("stop") else None
+    text = f"#VERSION:0.83;\n#OFFSET:0;\n#BPMS:0.000={case['bpm']};\n#STOPS:{('0.000=' + case['stop']) if stop else ''};\n#DELAYS:;\n#WARPS:{k / 48:.3f}={length};\n"
+    eng = TimingEngine(TimingData(SSCSimfile(string=text)))
+    lo, hi = min(L, R) * spb, max(L, R) * spb
+    first = k + int(max(L, R) * 48) + 2
+    n = 0
+    for t in list(range(first, first + 6)) + [first + 48, first + 997]:
+        b = F(t, 48)
+        base = b * spb + (stop or 0)
+        got = eng.time_at(frac_beat(b))
+        n += 1
+        d = float(base) - got
+        need(float(lo) - 1e-9 <= d <= float(hi) + 1e-9,
+             f"time_at({b}) = {got!r}: {d!r} s earlier than without the warp, expected between {float(lo)!r} and {float(hi)!r} "
+             f"(warp of {length} beats = {float(L * 48):.3f} ticks at beat {F(k, 48)}, {case['bpm']} BPM)")
+    for t in range(max(0, k - 3), k + 1):
+        b = F(t, 48)
+        got = eng.time_at(frac_beat(b))
+        n += 1
+        need(abs(got - float(b * spb + ((stop or 0) if b > 0 else 0))) <= 1e-9, f"time_at({b}) = {got!r} before a warp at {F(k, 48)}; BPM {case['bpm']}, stop {case.get('stop')}")
+    labels = ["unaligned-warp-length"] + (["warp-shorter-than-a-tick"] if L * 48 < 1 else [])
+    return Verdict(nontrivial=True, labels=labels, evals=n)
+
+
 def check(case):
     from simfile.timing.engine import EventTag
 
+    if case.get("kind") == "unaligned":
+        return check_unaligned(case)
     if case.get("kind") == "corpus":
         tl = load_corpus_case(case)
         if not in_domain(tl):
@@ -307,9 +347,25 @@ def corpus_cases():
     return out
 
 
+@st.composite
+def s_unaligned(draw):
+    mode = draw(st.integers(0, 2))
+    th = draw(st.integers(11, 20)) if mode == 0 else draw(st.integers(1, 400)) if mode == 1 else draw(st.integers(1, 4000))
+    ticks = F(th, 1000) * 48
+    if (ticks * 2).denominator == 1 and ticks.denominator != 1:
+        th += 1  # keep clear of exact half ticks: ties are not claimed
+    return {
+        "kind": "unaligned",
+        "warp": [draw(st.integers(1, 200)), f"{th // 1000}.{th % 1000:03d}"],
+        "bpm": draw(st.sampled_from(["120", "60", "173.2", "240", "1000"])),
+        "stop": draw(st.sampled_from([None, None, "0.250"])),
+    }
+
+
 def parts(tier):
     q = tier == "quick"
     return [
+        {"name": "unaligned-warp-times", "kind": "hypothesis", "strategy": s_unaligned, "examples": 400 if q else 16 * 2000},
         {"name": "corpus", "kind": "fixed", "cases": corpus_cases},
         {"name": "placements", "kind": "enum", "iter": _place_iter(3 if q else 4), "exhaustive": True},
         {"name": "random", "kind": "hypothesis", "strategy": s_case, "examples": 1500 if q else 16 * 10000},
